@@ -5,6 +5,7 @@ package main
 // (importObs). The hooks run after the property's own rules.
 
 import (
+	"fmt"
 	"strings"
 
 	"golang.org/x/tools/go/ssa"
@@ -117,4 +118,114 @@ func onlyFromLoop(p *Prog, fn *ssa.Function, loop string, depth int, seen map[*s
 		}
 	}
 	return callers > 0
+}
+
+func init() {
+	postHooks["C16"] = append(postHooks["C16"], checkEveryProcAttr)
+}
+
+// checkEveryProcAttr: every process attribute record the container package builds asks for SIGKILL on the death
+// of the parent, whichever of them reaches the command in a given configuration.
+func checkEveryProcAttr(c *Check) {
+	p := c.P
+	rule := "11/every-attr-pdeathsig"
+	n := 0
+	for _, fn := range p.PkgFuncs("container") {
+		for _, b := range fn.Blocks {
+			for _, in := range b.Instrs {
+				a, ok := in.(*ssa.Alloc)
+				if !ok || !strings.HasSuffix(derefType(a.Type()).String(), "syscall.SysProcAttr") {
+					continue
+				}
+				n++
+				var sig ssa.Value
+				if refs := a.Referrers(); refs != nil {
+					for _, r := range *refs {
+						if fa, ok := r.(*ssa.FieldAddr); ok && fieldName(fa.X.Type(), fa.Field) == "Pdeathsig" {
+							if fr := fa.Referrers(); fr != nil {
+								for _, u := range *fr {
+									if st, ok := u.(*ssa.Store); ok && st.Addr == ssa.Value(fa) {
+										sig = st.Val
+									}
+								}
+							}
+						}
+					}
+				}
+				v, okc := constInt(sig)
+				c.Cond(sig != nil && okc && v == p.Sys("SIGKILL"), rule, shortName(fn)+":SysProcAttr@"+fmt.Sprint(n), p.Pos(a.Pos()), "this process attribute record sets Pdeathsig = SIGKILL",
+					"a syscall.SysProcAttr is built here without Pdeathsig = SIGKILL ("+describeOrNil(sig)+"): a container started with it outlives its controller while it is not blocked on the control socket")
+			}
+		}
+	}
+	if n == 0 {
+		c.Undecided(rule, "container:SysProcAttr", "-", "no process attribute record found in the package")
+	}
+	c.Expect(rule, 1)
+}
+
+func init() {
+	postHooks["C04"] = append(postHooks["C04"], func(c *Check) { checkFprogNilOnlyEmpty(c, "O15/filter-not-dropped") })
+	postHooks["C01"] = append(postHooks["C01"], func(c *Check) { checkFprogNilOnlyEmpty(c, "9/filter-not-dropped") })
+	postHooks["C08"] = append(postHooks["C08"], checkInitKeepsLimits)
+}
+
+// checkFprogNilOnlyEmpty: the conversion of a filter to the kernel's argument answers "no filter" (nil) only for
+// the empty filter. The runners take nil for "no filter was given" and then start the program unfiltered.
+func checkFprogNilOnlyEmpty(c *Check, rule string) {
+	p := c.P
+	fn := p.Func("pkg/seccomp", "Filter.SockFprog")
+	if fn == nil {
+		c.Undecided(rule, "pkg/seccomp.Filter.SockFprog", "-", "function not found")
+		return
+	}
+	cd := controlDeps(fn)
+	n := 0
+	for _, b := range fn.Blocks {
+		ret, ok := b.Instrs[len(b.Instrs)-1].(*ssa.Return)
+		if !ok || len(ret.Results) != 1 || !isNilConst(ret.Results[0]) {
+			continue
+		}
+		n++
+		g := cd.guardOf(b)
+		var lenAtom string
+		for _, a := range Support(g) {
+			if strings.Contains(a, "len(") && strings.HasSuffix(a, " == 0") {
+				lenAtom = a
+			}
+		}
+		ok2 := false
+		if lenAtom != "" {
+			ok2, _, _ = Valid(fImp(g, fLit(lenAtom)))
+		}
+		c.Cond(ok2, rule, fmt.Sprintf("pkg/seccomp.Filter.SockFprog:nil-return#%d", n), p.Pos(ret.Pos()), "nil (no filter) is returned only for the empty filter",
+			"SockFprog returns nil under "+g.String()+": a non-empty filter is turned into 'no filter' and the program starts without it")
+	}
+	if n == 0 {
+		c.OK(rule, "pkg/seccomp.Filter.SockFprog:nil-return", p.Pos(fn.Pos()), "never returns nil")
+	}
+}
+
+// checkInitKeepsLimits: the container init does not change its own resource limits; programs inherit every limit
+// that is not configured from it.
+func checkInitKeepsLimits(c *Check) {
+	p := c.P
+	rule := "7/init-keeps-limits"
+	n, bad := 0, ""
+	for _, fn := range p.PkgFuncs("container") {
+		for _, ci := range callInstrs(fn) {
+			n++
+			nm, _ := calleeOf(ci)
+			if nm == "syscall.Setrlimit" || nm == "golang.org/x/sys/unix.Setrlimit" || nm == "golang.org/x/sys/unix.Prlimit" || nm == "syscall.prlimit" {
+				bad = p.Pos(ci.Pos())
+			}
+			if (nm == "syscall.Syscall" || nm == "syscall.RawSyscall" || nm == "syscall.Syscall6" || nm == "syscall.RawSyscall6") && len(ci.Common().Args) > 0 {
+				if v, ok := constInt(ci.Common().Args[0]); ok && (v == p.Sys("SYS_PRLIMIT64") || v == p.Sys("SYS_SETRLIMIT")) {
+					bad = p.Pos(ci.Pos())
+				}
+			}
+		}
+	}
+	c.Cond(bad == "", rule, "container:no-setrlimit", "-", fmt.Sprintf("no call in package container (%d call sites) sets a resource limit of the init itself", n),
+		"the container package sets a resource limit of its own process at "+bad+": every program started in the container inherits it although it was not configured")
 }
